@@ -1,4 +1,6 @@
 import IoraModel.Lemmas.WsFrame
+import IoraModel.Lemmas.WsStream
+import IoraModel.Lemmas.Utf8
 import IoraModel.Common.Framing
 /-!
 # C18 — WebSocket framing round-trips and reassembles under any segmentation
@@ -7,7 +9,7 @@ Property theorems only (helper lemmas live in `Lemmas/WsFrame.lean`).  The model
 `Model/WsFrame.lean` + `Model/WsServer.lean`; constants come from the regenerated `Gen/Ws.lean`.
 -/
 namespace Iora.C18
-open Iora Iora.Ws
+open Iora Iora.Ws Iora.Framing
 
 /-- **W1 (round-trip).** Every well-formed frame — any opcode, FIN, masked or not, any mask key, payload of any
 length `< 2^64` (7-, 16- and 64-bit encodings) — parses back to an equal frame consuming exactly its own bytes,
@@ -50,5 +52,65 @@ waits only on "incomplete" retains at most `max + 13` bytes, whatever the peer s
 theorem W6_incomplete_short (max : Nat) (d : Bytes) (hr : NoRsv d) (h : parse max d = .incomplete) :
     d.length < 14 + max :=
   parse_incomplete_short max d hr h
+
+/-- **W3 (frames).** However a stream of valid frames is cut into network reads (including empty reads and one byte at
+a time), greedy framing yields exactly the frames that were serialised — in order, each once, nothing left over. -/
+theorem W3_frames (max : Nat) (fs : List Frame) (hv : ValidFrames max fs) (ss : List Bytes)
+    (hs : ss.flatten = stream fs) :
+    feed (wsStable max) (.alive []) ss = (fs.map toP, .alive []) :=
+  feed_stream max fs hv ss hs
+
+/-- **W3 (server events).** For any stream of valid frames in which the peer's CLOSE (if any) is its last frame, and
+any two ways `ss`, `ts` of cutting the byte stream into reads, a fresh server session produces the same sequence of
+externally visible events (messages delivered, bytes sent, close/error callbacks). In fact the events are a function
+of the frame list alone. -/
+theorem W3_server_segmentation_independent (max : Nat) (fs : List Frame) (hv : ValidFrames max fs)
+    (hcl : CloseOnlyLast fs) (ss ts : List Bytes) (hs : ss.flatten = stream fs) (ht : ts.flatten = stream fs) :
+    (run max {} (ss.map AppOp.data)).2 = (run max {} (ts.map AppOp.data)).2 := by
+  rw [run_data_eq max ss {} fs hv hcl rfl (by simpa using hs) (by simp [parse]),
+      run_data_eq max ts {} fs hv hcl rfl (by simpa using ht) (by simp [parse])]
+
+theorem W3_server_events_of_frames (max : Nat) (fs : List Frame) (hv : ValidFrames max fs)
+    (hcl : CloseOnlyLast fs) (ss : List Bytes) (hs : ss.flatten = stream fs) :
+    (run max {} (ss.map AppOp.data)).2 = (interp max {} (fs.map toP)).2 :=
+  run_data_eq max ss {} fs hv hcl rfl (by simpa using hs) (by simp [parse])
+
+/-- non-vacuity: a text frame followed by a close frame is a valid, close-last stream -/
+example : ValidFrames 100 [mkFrame 1 true [104, 105], makeClose 1000 []] ∧ CloseOnlyLast [mkFrame 1 true [104, 105], makeClose 1000 []] := by
+  refine ⟨?_, ?_⟩
+  · intro f hf
+    simp only [List.mem_cons, List.mem_nil_iff, or_false] at hf
+    rcases hf with rfl | rfl
+    · exact ⟨⟨by simp [mkFrame], by simp [mkFrame, zeroKey], by simp [mkFrame], by simp [mkFrame], by simp [mkFrame, isControl, Gen.Ws.controlOpcodes]⟩, by simp [mkFrame]⟩
+    · exact ⟨⟨by simp [makeClose], by simp [makeClose, zeroKey], by simp [makeClose], by simp [makeClose], by simp [makeClose, Gen.Ws.maxControlPayload]⟩, by simp [makeClose]⟩
+  · intro pre f post he h8
+    match pre, he with
+    | [], he => simp at he; rw [← he.1] at h8; simp [mkFrame] at h8
+    | [_], he => simp at he; exact he.2.2
+    | _ :: _ :: _ :: _, he => simp at he
+    | [_, _], he => simp at he
+
+/-- **W4 (reassembly).** Fragments are joined in order; ping/pong control frames between fragments do not disturb
+reassembly; every ping is answered by a pong with the same payload; a text message is delivered only if it is valid
+UTF-8 (otherwise close 1007); the message is delivered exactly once. -/
+theorem W4_reassembly (max : Nat) (op : Nat) (hop : op = 1 ∨ op = 2) (fs : List Frame) (acc : Bytes)
+    (ht : Tail acc fs) (s : Sess) (ha : s.alive = true) (hfo : s.fragOp = op) (hl : (s.fragBuf ++ acc).length ≤ max) :
+    (interp max s (fs.map toP)).2 = pongsOf fs ++ deliverEv op (s.fragBuf ++ acc) :=
+  reassembly_tail max op hop fs acc ht s ha hfo hl
+
+/-- **W4 (UTF-8).** The validator accepts exactly the well-formed UTF-8 byte sequences of Unicode Table 3-7 / RFC 3629
+(no overlongs, no surrogates, nothing above U+10FFFF, no truncated sequences). -/
+theorem W4_utf8 (d : Bytes) : isValidUtf8 d = true ↔ Utf8 d := isValidUtf8_iff d
+
+/-- **W5 (after close).** For EVERY history of application sends (text, binary, ping, close) and network reads, in any
+order — each is one `_wsMutex` critical section in the real server — no data frame is handed to the transport after a
+close frame has been. -/
+theorem W5_no_data_after_close (max : Nat) (ops : List AppOp) : NoDataAfterClose (run max {} ops).2 :=
+  (run_noDataAfterClose max ops {}).2
+
+/-- **W6c (bounded buffering, session level).** For EVERY history and ARBITRARY peer bytes the session never retains
+more than `max + 13` unparsed bytes. -/
+theorem W6_server_buffer_bounded (max : Nat) (ops : List AppOp) : (run max {} ops).1.buffer.length < 14 + max :=
+  run_buffer max ops {} (by simp; omega)
 
 end Iora.C18
